@@ -19,7 +19,16 @@
 (*     psABI: GNU_PROPERTY_X86_FEATURE_1_AND 0xc0000002, _ISA_1_NEEDED      *)
 (*     0xc0008002, _FEATURE_2_USED 0xc0010001, _ISA_1_USED 0xc0010002 (one  *)
 (*     4-byte word each); AArch64 ELF: GNU_PROPERTY_AARCH64_FEATURE_1_AND   *)
-(*     0xc0000000 (one 4-byte word);                                       *)
+(*     0xc0000000 (one 4-byte word), GNU_PROPERTY_AARCH64_FEATURE_PAUTH    *)
+(*     0xc0000001 (two 64-bit words: platform identifier, version);        *)
+(*     x86-64 psABI GNU_PROPERTY_X86_FEATURE_2_NEEDED 0xc0008001 and       *)
+(*     linux-abi GNU_PROPERTY_1_NEEDED 0xb0008000 (one 4-byte word each);   *)
+(*     pr_type ranges: 0xc0000000..0xdfffffff processor specific,          *)
+(*     0xe0000000..0xffffffff application specific; a property of a type   *)
+(*     the reader does not know is pr_datasz bytes of data;                *)
+(*   gABI ch.4 e_type: ET_NONE 0, ET_REL 1, ET_EXEC 2, ET_DYN 3, ET_CORE 4, *)
+(*     ET_LOOS..ET_HIOS 0xfe00..0xfeff, ET_LOPROC..ET_HIPROC 0xff00..0xffff:*)
+(*     only ET_CORE files are core files, every other e_type is "not core"; *)
 (*   Linux include/linux/elfcore.h + fs/binfmt_elf.c (owner "CORE" in       *)
 (*     ET_CORE files: NT_PRSTATUS 1, NT_PRFPREG/NT_FPREGSET 2, NT_PRPSINFO  *)
 (*     3, NT_TASKSTRUCT/NT_PRXREG 4, NT_AUXV 6, NT_SIGINFO 0x53494749,      *)
@@ -49,9 +58,20 @@
 (* code whose owner is not the one that defines the code (`fixed` = FALSE:  *)
 (* raw integer or any name some owner gives the code is acceptable); the    *)
 (* decoded form (n_desc) of descriptors the specification has no layout     *)
-(* for; how an absent name (namesz = 0) is rendered; the content of padding *)
+(* for - except that a note no transcribed standard gives a meaning to     *)
+(* (`opaque`: an owner other than the one that defines the type codes of    *)
+(* this kind of file, or a code the owner "GNU" does not define) can only   *)
+(* be handed out as its descriptor bytes: n_desc = the raw bytes; owner     *)
+(* "FreeBSD" and unnamed codes of owner "CORE" in core files are left out   *)
+(* of that (real layouts exist that are not transcribed here); how an       *)
+(* absent name (namesz = 0) is rendered; the content of padding            *)
 (* (generated as 0 and as 0xA5, never compared).  In ET_CORE files type 3   *)
 (* and NT_FILE are generated with owner "CORE" only.                        *)
+(* Dimensions added by the strengthening round: e_type (TypeETypes /        *)
+(* DescETypes: the file kind is "core" iff e_type = ET_CORE, so every other *)
+(* e_type must behave like ET_DYN), owner look-alikes x type codes (mode    *)
+(* "types"), property types of the processor range with payloads of 4, 8    *)
+(* and 16 bytes and property types newer than most readers' tables.         *)
 (***************************************************************************)
 EXTENDS Elf, NoteWalk, Json, CSV, IOUtils
 
@@ -66,21 +86,32 @@ CONSTANTS Modes,       \* subset of {"walk", "types", "desc", "stabs"}
           MaxProps,    \* longest property list
           PropPool,    \* property kinds
           Leads, Follows,   \* <<namesz, descsz>> of plain notes before / after a decoded one
-          MaxStabs
+          MaxStabs,
+          TypeETypes,  \* e_type values of mode "types"
+          DescETypes,  \* e_type values of mode "desc" ...
+          EtMaxProps   \* ... where e_types other than ET_DYN / ET_CORE get a single decoded note without neighbours
+                       \*     and property lists of at most this length
 
 VARIABLES Mode, cf, notes, props, stabs, phase, cs, ext, w, outs
 vars == <<Mode, cf, notes, props, stabs, phase, cs, ext, w, outs>>
 
 (* --------------------------- configurations ---------------------------- *)
 ClsLe == {<<32, TRUE>>, <<32, FALSE>>, <<64, TRUE>>, <<64, FALSE>>}
-Cf(cls, le, core, machine, pad) == [cls |-> cls, le |-> le, core |-> core, machine |-> machine, pad |-> pad]
+\* et: e_type; core: the file kind (gABI: ET_CORE = 4 is the only core-file type)
+CfE(cls, le, et, machine, pad) == [cls |-> cls, le |-> le, core |-> (et = 4), et |-> et, machine |-> machine, pad |-> pad]
+Cf(cls, le, core, machine, pad) == CfE(cls, le, IF core THEN 4 ELSE 3, machine, pad)
+ETypesAll == {0, 1, 2, 3, 4, 65025, 65280, 65535}      \* NONE REL EXEC DYN CORE LOOS+1 LOPROC HIPROC
+ETypesQuick == {0, 1, 3, 4, 65025, 65535}
+ETypesDescQuick == {0, 3, 4, 65280}
+ETypesBase == {3, 4}
+BaseEt(c) == c.et \in ETypesBase
 \* EM_386 3, EM_MIPS 8, EM_PPC 20, EM_PPC64 21, EM_S390 22, EM_ARM 40, EM_X86_64 62, EM_AARCH64 183 (gABI e_machine)
 DefMachine(cls, le) == IF cls = 64 THEN (IF le THEN 62 ELSE 21) ELSE IF le THEN 3 ELSE 8
 WalkCfEight == {Cf(c[1], c[2], core, DefMachine(c[1], c[2]), IF core = c[2] THEN 0 ELSE 165) : c \in ClsLe, core \in BOOLEAN}
 WalkCfQuick == {Cf(32, TRUE, FALSE, 3, 0), Cf(32, FALSE, TRUE, 8, 165), Cf(64, TRUE, TRUE, 62, 0), Cf(64, FALSE, FALSE, 21, 165)}
-TypesCf == {Cf(c[1], c[2], core, DefMachine(c[1], c[2]), 0) : c \in ClsLe, core \in BOOLEAN}
+TypesCf == {CfE(c[1], c[2], et, DefMachine(c[1], c[2]), 0) : c \in ClsLe, et \in TypeETypes}
 DescMachines(cls, le) == IF cls = 32 THEN (IF le THEN {3, 40, 8} ELSE {22, 20}) ELSE (IF le THEN {62, 183} ELSE {21, 22})   \* 22 in both classes: s390 (16-bit ids) vs s390x (32-bit ids)
-DescCf == UNION {{Cf(c[1], c[2], core, m, pad) : m \in DescMachines(c[1], c[2]), core \in BOOLEAN, pad \in DescPads} : c \in ClsLe}
+DescCf == UNION {{CfE(c[1], c[2], et, m, pad) : m \in DescMachines(c[1], c[2]), et \in DescETypes, pad \in DescPads} : c \in ClsLe}
 StabCf == {Cf(c[1], c[2], FALSE, DefMachine(c[1], c[2]), 0) : c \in ClsLe}
 AllModes == {"walk", "types", "desc", "stabs"}
 Sizes8 == {0, 1, 2, 3, 4, 5, 8, 17}
@@ -89,8 +120,11 @@ Sizes4n == {0, 3, 5, 8}
 Sizes3 == {0, 3, 5}
 DescOnly == {"desc"}
 WalkOnly == {"walk"}
-AllProps == {"stack", "nocopy", "x86f1", "x86isan", "x86f2u", "x86isau", "a64f1", "unk0", "unk1", "unk5", "unk8", "unk12", "user"}
-QuickProps == {"stack", "nocopy", "x86f1", "x86isan", "x86f2u", "x86isau", "a64f1", "unk0", "unk1", "unk5", "unk8", "user"}
+AllProps == {"stack", "nocopy", "x86f1", "x86isan", "x86f2u", "x86isau", "a64f1", "unk0", "unk1", "unk5", "unk8", "unk12", "user",
+             "a64pauth", "x86f2n", "needed1", "proc4", "proc8", "proc16"}
+QuickProps == {"stack", "nocopy", "x86f1", "x86isan", "x86f2u", "x86isau", "a64f1", "unk0", "unk1", "unk5", "user",
+               "a64pauth", "x86f2n", "proc4", "proc16"}
+Props3 == {"stack", "nocopy", "x86f1", "x86f2u", "a64f1", "unk1", "unk5", "user", "a64pauth", "x86f2n", "proc4", "proc16"}
 NoPairs == {}
 Follow85 == {<<8, 5>>}
 Follow00 == {<<0, 0>>, <<8, 5>>}
@@ -113,6 +147,11 @@ Owner(ns) == CASE ns = 0 -> <<>>
                [] ns = 5 -> OwnerCORE
                [] ns = 8 -> OwnerFreeBSD
                [] OTHER -> [i \in 1..ns |-> IF i = ns THEN 0 ELSE 96 + i]      \* "abc...\0"
+\* owners of mode "types": ids below 100 are name sizes (Owner), the others look-alikes of "GNU" that no standard defines
+OwnerGnuLower == <<103, 110, 117, 0>>          \* "gnu\0"
+OwnerGNUX == <<71, 78, 85, 88, 0>>             \* "GNUX\0"
+OwnerXGNU == <<88, 71, 78, 85, 0>>             \* "XGNU\0"
+TOwner(o) == CASE o = 101 -> OwnerGnuLower [] o = 102 -> OwnerGNUX [] o = 103 -> OwnerXGNU [] OTHER -> Owner(o)
 DescBytes(i, ds) == [j \in 1..ds |-> 128 + 16 * i + j]
 
 NT_FILE == T4(69, 76, 73, 70)
@@ -126,7 +165,10 @@ AbiOsTab == << <<0, "ELF_NOTE_OS_LINUX">>, <<1, "ELF_NOTE_OS_GNU">>, <<2, "ELF_N
 PropTab == << <<T4(1, 0, 0, 0), "GNU_PROPERTY_STACK_SIZE", "any">>, <<T4(2, 0, 0, 0), "GNU_PROPERTY_NO_COPY_ON_PROTECTED", "any">>,
               <<T4(2, 0, 0, 192), "GNU_PROPERTY_X86_FEATURE_1_AND", "x86">>, <<T4(2, 128, 0, 192), "GNU_PROPERTY_X86_ISA_1_NEEDED", "x86">>,
               <<T4(1, 0, 1, 192), "GNU_PROPERTY_X86_FEATURE_2_USED", "x86">>, <<T4(2, 0, 1, 192), "GNU_PROPERTY_X86_ISA_1_USED", "x86">>,
-              <<T4(0, 0, 0, 192), "GNU_PROPERTY_AARCH64_FEATURE_1_AND", "aarch64">> >>
+              <<T4(0, 0, 0, 192), "GNU_PROPERTY_AARCH64_FEATURE_1_AND", "aarch64">>,
+              <<T4(1, 0, 0, 192), "GNU_PROPERTY_AARCH64_FEATURE_PAUTH", "aarch64">>,
+              <<T4(1, 128, 0, 192), "GNU_PROPERTY_X86_FEATURE_2_NEEDED", "x86">>,
+              <<T4(0, 128, 0, 176), "GNU_PROPERTY_1_NEEDED", "any">> >>
 NamesIn(tab, t) == {tab[i][2] : i \in {j \in 1..Len(tab) : tab[j][1] = t}}
 MachClass(m) == IF m \in {3, 62} THEN "x86" ELSE IF m = 183 THEN "aarch64" ELSE "other"
 PropNames(t, m) == {PropTab[i][2] : i \in {j \in 1..Len(PropTab) : PropTab[j][1] = t /\ PropTab[j][3] \in {"any", MachClass(m)}}}
@@ -144,6 +186,11 @@ DescKind(name, t, core) ==
   ELSE IF name = OwnerCORE /\ core
   THEN CASE t = T4(3, 0, 0, 0) -> "prpsinfo" [] t = NT_FILE -> "ntfile" [] OTHER -> "raw"
   ELSE "raw"
+\* no transcribed standard gives the note a meaning: a reader can only hand out the descriptor bytes.  Left out: owner
+\* "FreeBSD" and the unnamed codes of "CORE" in core files (real layouts exist that are not transcribed here)
+Opaque(name, t, core) ==
+  /\ DescKind(name, t, core) = "raw"
+  /\ IF TypeFixed(name, core) THEN name = OwnerGNU /\ NamesIn(GnuTypes, t) = {} ELSE name # OwnerFreeBSD
 
 \* dec = [k: layout, f: the abstract descriptor fields, nm: naming/representation hints for the view]
 Note(name, desc, t, dec) == [name |-> name, desc |-> desc, type |-> t, dec |-> dec, role |-> "desc"]
@@ -192,9 +239,9 @@ GoldNote == LET d == <<103, 111, 108, 100, 32, 49, 46, 49, 49>> IN              
 
 \* program properties
 PropAlign(cls) == IF cls = 64 THEN 8 ELSE 4
-PropKindsFor(m) == {"stack", "nocopy", "unk0", "unk1", "unk5", "unk8", "unk12", "user"}
-                   \cup (IF MachClass(m) = "x86" THEN {"x86f1", "x86isan", "x86f2u", "x86isau"} ELSE {})
-                   \cup (IF MachClass(m) = "aarch64" THEN {"a64f1"} ELSE {})
+PropKindsFor(m) == {"stack", "nocopy", "unk0", "unk1", "unk5", "unk8", "unk12", "user", "needed1", "proc4", "proc8", "proc16"}
+                   \cup (IF MachClass(m) = "x86" THEN {"x86f1", "x86isan", "x86f2u", "x86isau", "x86f2n"} ELSE {})
+                   \cup (IF MachClass(m) = "aarch64" THEN {"a64f1", "a64pauth"} ELSE {})
 Prop(t, data, pk) == [ptype |-> t, data |-> data, pk |-> pk]
 PropOf(kind, c) ==
   CASE kind = "stack" -> Prop(T4(1, 0, 0, 0), Fix(IF c.cls = 32 THEN W(<<0, 0, 32, 128>>) ELSE W(<<0, 0, 32, 0, 1, 0, 0, 128>>), c.cls \div 8, c.le), "int")
@@ -210,6 +257,14 @@ PropOf(kind, c) ==
     [] kind = "unk8" -> Prop(T4(71, 35, 1, 0), <<221, 222, 223, 224, 225, 226, 227, 228>>, "raw")
     [] kind = "unk12" -> Prop(T4(72, 35, 1, 0), [j \in 1..12 |-> 230 + j], "raw")
     [] kind = "user" -> Prop(T4(1, 0, 0, 224), <<241, 242, 243, 244>>, "raw")
+    \* two 64-bit words in file byte order (AArch64 ELF: PAuth ABI platform identifier, version)
+    [] kind = "a64pauth" -> Prop(T4(1, 0, 0, 192), Fix(W(<<2, 0, 0, 0, 0, 0, 0, 16>>), 8, c.le) \o Fix(W(<<85, 0, 0, 0, 1, 0, 0, 128>>), 8, c.le), "u64x2")
+    [] kind = "x86f2n" -> Prop(T4(1, 128, 0, 192), Fix(N(5), 4, c.le), "int")
+    [] kind = "needed1" -> Prop(T4(0, 128, 0, 176), Fix(N(1), 4, c.le), "int")
+    \* processor-specific types no psABI defines: whatever their size, pr_datasz bytes of data
+    [] kind = "proc4" -> Prop(T4(4, 26, 254, 202), <<161, 162, 163, 164>>, "raw")
+    [] kind = "proc8" -> Prop(T4(8, 26, 254, 202), [j \in 1..8 |-> 170 + j], "raw")
+    [] kind = "proc16" -> Prop(T4(16, 26, 254, 223), [j \in 1..16 |-> 180 + j], "raw")
 EncProp(p, c) == LET body == Fix(p.ptype, 4, c.le) \o Fix(N(Len(p.data)), 4, c.le) \o p.data IN
                  body \o Rep(c.pad, RoundUp(Len(body), PropAlign(c.cls)) - Len(body))
 EncProps(ps, c) == Flat([i \in 1..Len(ps) |-> EncProp(ps[i], c)])
@@ -217,7 +272,10 @@ PropsNote(ps, c) ==
   Note(OwnerGNU, EncProps(ps, c), T4(5, 0, 0, 0),
        [k |-> "props", f |-> [i \in 1..Len(ps) |-> [ptype |-> ps[i].ptype.d, data |-> ps[i].data]],
         nm |-> [i \in 1..Len(ps) |-> [names |-> PropNames(ps[i].ptype, c.machine), pk |-> ps[i].pk,
-                                       val |-> IF c.le \/ ps[i].pk = "raw" THEN ps[i].data ELSE Rev(ps[i].data)]]])
+                                       \* little-endian digits of the value (of each 8-byte word for "u64x2")
+                                       val |-> CASE c.le \/ ps[i].pk = "raw" -> ps[i].data
+                                                 [] ps[i].pk = "u64x2" -> Rev(SubSeq(ps[i].data, 1, 8)) \o Rev(SubSeq(ps[i].data, 9, 16))
+                                                 [] OTHER -> Rev(ps[i].data)]]])
 
 \* process information
 Txt16 == [j \in 1..16 |-> 64 + j]
@@ -265,7 +323,7 @@ DotNoteX == <<46, 110, 111, 116, 101, 46, 120>>                      \* ".note.x
 DotStab == <<46, 115, 116, 97, 98>>                                  \* ".stab"
 NoteIm(c, data) ==
   LET n == N(Len(data))
-      im0 == [Im0 EXCEPT !.cls = c.cls, !.le = c.le, !.machine = c.machine, !.etype = N(IF c.core THEN 4 ELSE 3),
+      im0 == [Im0 EXCEPT !.cls = c.cls, !.le = c.le, !.machine = c.machine, !.etype = N(c.et),
                          !.secs = <<Sec(DotNoteX, N(7), N(2), N(4096), data, n, Z, Z, N(4), Z)>>,
                          \* (Linux core dumps carry p_memsz = 0 in PT_NOTE: the file size alone delimits the notes)
                          !.segs = <<Seg(N(4), N(4), Z, N(4096), N(4096), n, IF c.core THEN Z ELSE n, N(4))>>]
@@ -308,19 +366,19 @@ AddRaw(ns, ds) ==
 
 TypeSweep == {T4(0, 0, 0, 0), T4(1, 0, 0, 0), T4(2, 0, 0, 0), T4(3, 0, 0, 0), T4(4, 0, 0, 0), T4(5, 0, 0, 0), T4(6, 0, 0, 0), T4(7, 0, 0, 0),
               T4(0, 1, 0, 0), NT_SIGINFO, NT_FILE, T4(1, 0, 0, 128), T4(126, 26, 254, 202), T4(255, 255, 255, 255)}
-OwnerSweep == {0, 1, 4, 5, 8}
+OwnerSweep == {0, 1, 2, 4, 5, 8, 101, 102, 103}
 AddTyped(ns, t) ==
   /\ phase = "write" /\ Mode = "types" /\ notes = <<>>
-  /\ DescKind(Owner(ns), t, cf.core) \in {"raw", "buildid", "gold"}
+  /\ DescKind(TOwner(ns), t, cf.core) \in {"raw", "buildid", "gold"}
   /\ ~(cf.core /\ t \in {T4(3, 0, 0, 0), NT_FILE})              \* generated with owner "CORE" and a real descriptor only (mode "desc")
-  /\ notes' = <<PlainNote(Owner(ns), DescBytes(1, 5), t, cf.core)>>
+  /\ notes' = <<PlainNote(TOwner(ns), DescBytes(1, 5), t, cf.core)>>
   /\ UNCHANGED <<props, stabs>> /\ Keep
 
 \* mode "desc": [plain note] decoded note [plain note]
 OnlyLead == Len(notes) <= 1 /\ \A i \in 1..Len(notes) : notes[i].role = "lead"
 DescOpen == phase = "write" /\ Mode = "desc" /\ props = <<>> /\ OnlyLead
 Plain(i, sz, mark) == [RawNote(i, sz[1], sz[2], cf) EXCEPT !.role = mark]
-AddLead(sz) == DescOpen /\ notes = <<>> /\ notes' = <<Plain(1, sz, "lead")>> /\ UNCHANGED <<props, stabs>> /\ Keep
+AddLead(sz) == DescOpen /\ BaseEt(cf) /\ notes = <<>> /\ notes' = <<Plain(1, sz, "lead")>> /\ UNCHANGED <<props, stabs>> /\ Keep
 AddDescNote(n) == DescOpen /\ notes' = Append(notes, n) /\ UNCHANGED <<props, stabs>> /\ Keep
 AddAbi(os) == ~cf.core /\ AddDescNote(AbiNote(os, cf))
 AddBuildId(n) == ~cf.core /\ AddDescNote(BuildIdNote(n))
@@ -328,7 +386,7 @@ AddGold == ~cf.core /\ AddDescNote(GoldNote)
 AddPrps(v) == cf.core /\ AddDescNote(PrpsNote(v, cf))
 AddNtFile(n) == cf.core /\ AddDescNote(NtFileNote(n, cf))
 AddProp(kind) ==
-  /\ phase = "write" /\ Mode = "desc" /\ ~cf.core /\ Len(props) < MaxProps
+  /\ phase = "write" /\ Mode = "desc" /\ ~cf.core /\ Len(props) < (IF BaseEt(cf) THEN MaxProps ELSE Min({MaxProps, EtMaxProps}))
   /\ OnlyLead
   /\ kind \in PropPool \cap PropKindsFor(cf.machine)
   /\ props' = Append(props, PropOf(kind, cf))
@@ -339,7 +397,7 @@ CloseProps ==
   /\ UNCHANGED stabs /\ Keep
 DescDone == Len(notes) > 0 /\ notes[Len(notes)].role # "lead"
 AddFollow(sz) ==
-  /\ phase = "write" /\ Mode = "desc" /\ props = <<>> /\ DescDone /\ notes[Len(notes)].role # "follow"
+  /\ phase = "write" /\ Mode = "desc" /\ BaseEt(cf) /\ props = <<>> /\ DescDone /\ notes[Len(notes)].role # "follow"
   /\ notes' = Append(notes, Plain(Len(notes) + 1, sz, "follow"))
   /\ UNCHANGED <<props, stabs>> /\ Keep
 
@@ -450,6 +508,7 @@ NoteView(n, off, c) ==
   [off |-> off, size |-> NoteSize(Len(n.name), Len(n.desc)), namesz |-> Len(n.name), descsz |-> Len(n.desc),
    type |-> n.type.d, hasname |-> n.name # <<>>, name |-> NameOf(n.name), desc |-> n.desc,
    fixed |-> TypeFixed(n.name, c.core), strict |-> StrictNames(n.name, n.type, c.core), anyn |-> AnyNames(n.type),
+   opaque |-> Opaque(n.name, n.type, c.core),
    dk |-> n.dec.k, df |-> n.dec.f, dn |-> n.dec.nm]
 NotesView(base) == [i \in 1..Len(notes) |-> NoteView(notes[i], NoteOff(notes, i, base), cf)]
 StabView(base) == [i \in 1..Len(stabs) |-> [off |-> base + StabSize * (i - 1), f |-> stabs[i]]]
@@ -487,7 +546,7 @@ Tables == [gnu |-> [i \in 1..Len(GnuTypes) |-> <<GnuTypes[i][1].d, GnuTypes[i][2
            prop |-> [i \in 1..Len(PropTab) |-> <<PropTab[i][1].d, PropTab[i][2]>>]]
 Case == IF Mode = "stabs"
         THEN [mode |-> Mode, tag |-> Tag, cls |-> cf.cls, le |-> cf.le, chunks |-> cs, sec |-> 1, stabs |-> StabView(ext.secstart)]
-        ELSE [mode |-> Mode, tag |-> Tag, cls |-> cf.cls, le |-> cf.le, core |-> cf.core, machine |-> cf.machine, chunks |-> cs,
+        ELSE [mode |-> Mode, tag |-> Tag, cls |-> cf.cls, le |-> cf.le, core |-> cf.core, etype |-> cf.et, machine |-> cf.machine, chunks |-> cs,
               sec |-> 1, seg |-> 0, ext |-> <<ext.secstart, ext.secend>>, notes |-> NotesView(ext.secstart)]
 Emit == /\ (phase = "done" => CSVWrite("%1$s", <<ToJson(Case)>>, IOEnv.OUT))
         /\ (phase = "write" /\ notes = <<>> /\ props = <<>> /\ stabs = <<>> /\ cf.cls = 32 /\ cf.le =>
@@ -515,12 +574,20 @@ DescRoundTrip ==
       LET k == DescKind(notes[i].name, notes[i].type, cf.core) IN
       /\ k = notes[i].dec.k
       /\ DecodeDesc(k, outs.sec[i].desc, cf) = notes[i].dec.f
+\* only notes of the owner that defines the type codes of this kind of file are ever decoded; what nobody defines is opaque
+OnlyDefiningOwnerDecodes ==
+  NotesMode => \A i \in 1..Len(notes) :
+      LET n == notes[i]   k == DescKind(n.name, n.type, cf.core) IN
+      /\ (k # "raw" => TypeFixed(n.name, cf.core) /\ StrictNames(n.name, n.type, cf.core) # {} /\ ~Opaque(n.name, n.type, cf.core))
+      /\ (Opaque(n.name, n.type, cf.core) => n.dec = RawDec /\ StrictNames(n.name, n.type, cf.core) = {})
+      /\ (~TypeFixed(n.name, cf.core) /\ n.name # OwnerFreeBSD => Opaque(n.name, n.type, cf.core))
 StabsExact == Done /\ ~NotesMode => outs.sec = StabView(ext.secstart) /\ outs.secoff = ext.secend
 \* section header and program header designate the same file bytes, and those are the encoded extent
 ImageCarriesExtent ==
   phase = "sec" /\ w.pc = "hdr" /\ w.off = ext.secstart =>
       /\ ext.segstart = ext.secstart /\ ext.segend = ext.secend
       /\ Read(cs, ext.secstart, ext.secend - ext.secstart) = Extent(notes, cf, ext.tail)
+      /\ (NotesMode => Read(cs, 16, 2) = Fix(N(cf.et), 2, cf.le) /\ cf.core = (cf.et = 4))       \* e_type (gABI: offset 16 in both classes)
       /\ \A i, j \in 1..Len(cs) : i < j => \/ Len(cs[i][2]) = 0 \/ Len(cs[j][2]) = 0
                                            \/ cs[i][1] + Len(cs[i][2]) * cs[i][3] <= cs[j][1]
                                            \/ cs[j][1] + Len(cs[j][2]) * cs[j][3] <= cs[i][1]
